@@ -18,6 +18,12 @@ def configs(ctx):
         # non-default padding mode: backward and forward must still be each other's derivative
         items.append((1, b, 4, 6, 2, False, 'zero'))
         items.append((1, b, 6, 4, 3, True, 'zero'))
+        # odd sizes: the layer extends the input by one row / column before (or inside) the Function
+        items.append((1, b, 5, 6, 2, False))
+        items.append((1, b, 4, 7, 3, True))
+        if not ctx.quick:
+            items.append((1, b, 5, 7, 2, False, 'zero'))
+            items.append((2, b, 7, 8, 2, False))
     return items
 
 
